@@ -609,6 +609,9 @@ def c14(work, v, tier):
     q = tier == "quick"
     tables = [("policy", dict(Caps=[0, 1, 2], Vals=["nil", "a", "b"], MaxLen=3, Fams=["grow", "policy", "err"], PushLens=[1, 2, 3],
                               depth=2, walks=300 if q else 20000, wlen=40))]
+    # a push policy takes the place of the no-nesting filter: what it approves is stored, Stacks included
+    tables.append(("pol-nn", dict(Caps=[0, 2], Vals=["a", "S", "A"], MaxLen=2, InitOpts=[[], ["nnest"]], OptFlags=["nnest"], Fams=["grow", "policy", "opts"], PushLens=[1, 2],
+                                  depth=2, walks=200 if q else 10000, wlen=30)))
     tables.append(("closures", dict(Caps=[0], Kinds=["AND", "OR", "NOT", "LIST", "BASIC"], Vals=["a"], MaxLen=1, PushLens=[1], InitOpts=[[], ["paren"]],
                                     Fams=["closures", "grow", "marshal"], depth=2, walks=300 if q else 20000, wlen=40)))
     tables.append(("less", dict(Caps=[0], Kinds=["AND"], Vals=["nil", "a", "b", "S", "A"], MaxLen=2 if q else 3, PushLens=[1, 2], InitOpts=[[], ["neg", "fwd"]],
@@ -747,7 +750,9 @@ def c19(work, v, tier):
             dict(module="Gen_Defrag", family="instack", fn="defrag", consts=dict(MaxLen=6 if q else 9, Limits=lims), timeout=3000),
             dict(module="Gen_Defrag", family="incond", fn="defrag", consts=dict(MaxLen=6 if q else 9, Limits=lims), timeout=3000),
             dict(module="Gen_Defrag", family="alias", fn="defrag", consts=dict(MaxLen=4 if q else 6, Limits="{0, 2}"), timeout=3000),
-            dict(module="Gen_Defrag", family="deep", fn="defrag", consts=dict(MaxLen=5 if q else 8, Limits="{0, 2}"), timeout=3000)]
+            dict(module="Gen_Defrag", family="deep", fn="defrag", consts=dict(MaxLen=5 if q else 8, Limits="{0, 2}"), timeout=3000),
+            dict(module="Gen_Defrag", family="tnil", fn="defrag", consts=dict(MaxLen=5 if q else 7, Limits="{0, 2}"), timeout=3000),
+            dict(module="Gen_Defrag", family="preerr", fn="defrag", consts=dict(MaxLen=6 if q else 9, Limits="{0, 2}"), timeout=3000)]
     return sm_check(work, v, "C19", tier, [], [], [],
                     ["Laws of DefragSpec on every generated input: no nil left anywhere, idempotent, a nil-free stack is untouched, Len = number of non-nil elements"],
                     "Defrag against spec/Defrag.tla: EVERY nil / non-nil pattern of length 0..8 (quick) / 0..12 (thorough) x scan limits {default,1,2,3} x the four "
